@@ -420,8 +420,9 @@ func (c *ComputedStyle) cascadeValue(key pr.PropKey) (value pr.DeclaredValue, sa
 	parent_style := c.parentStyle
 	if rawTokens, isPending := value.(pr.RawTokens); isPending { // Property with pending values, validate them.
 		var solvedTokens []Token
+		cyclic := false
 		for _, token := range rawTokens {
-			tokens := resolveVar(c.variables, token)
+			tokens := resolveVarSeen(c.variables, token, nil, &cyclic)
 			if tokens == nil {
 				solvedTokens = append(solvedTokens, token)
 			} else {
@@ -429,7 +430,10 @@ func (c *ComputedStyle) cascadeValue(key pr.PropKey) (value pr.DeclaredValue, sa
 			}
 		}
 		var err error
-		if len(solvedTokens) == 0 {
+		if cyclic {
+			// invalid at computed-value time
+			err = errors.New("cyclic var() reference")
+		} else if len(solvedTokens) == 0 {
 			err = errors.New("no value")
 		} else if shortand != 0 {
 			// the tokens must be expanded (shortand are never variable)
@@ -1503,6 +1507,14 @@ func (styleFor StyleFor) SetPageComputedStylesT(pageType utils.PageElement, html
 
 // Return tokens with resolved CSS variables.
 func resolveVar(computed map[string]pr.RawTokens, token Token) []Token {
+	cyclic := false
+	return resolveVarSeen(computed, token, nil, &cyclic)
+}
+
+// resolveVarSeen is resolveVar with the list of the variables being resolved:
+// a variable (directly or indirectly) referencing itself is reported with [cyclic]
+// and resolves to nothing, instead of recursing forever.
+func resolveVarSeen(computed map[string]pr.RawTokens, token Token, seen []string, cyclic *bool) []Token {
 	if !validation.HasVar(token) {
 		return nil
 	}
@@ -1512,13 +1524,13 @@ func resolveVar(computed map[string]pr.RawTokens, token Token) []Token {
 		arguments := []Token{}
 		for _, argument := range fn.Arguments {
 			if fna, isFunction := argument.(pa.FunctionBlock); isFunction && utils.AsciiLower(fna.Name) == "var" {
-				arguments = append(arguments, resolveVar(computed, argument)...)
+				arguments = append(arguments, resolveVarSeen(computed, argument, seen, cyclic)...)
 			} else {
 				arguments = append(arguments, argument)
 			}
 		}
 		token = pa.NewFunctionBlock(token.Pos(), fn.Name, arguments)
-		if resolved := resolveVar(computed, token); len(resolved) != 0 {
+		if resolved := resolveVarSeen(computed, token, seen, cyclic); len(resolved) != 0 {
 			return resolved
 		}
 		return []Token{token}
@@ -1529,13 +1541,21 @@ func resolveVar(computed map[string]pr.RawTokens, token Token) []Token {
 	varNameToken, default_ := args[0], args[1:]
 	variableName := varNameToken.(pa.Ident).Value
 
+	for _, s := range seen {
+		if s == variableName {
+			*cyclic = true
+			return []Token{}
+		}
+	}
+	seen = append(seen[:len(seen):len(seen)], variableName)
+
 	source := default_
 	if l := computed[variableName]; len(l) != 0 {
 		source = l
 	}
 	computedValue := []Token{}
 	for _, value := range source {
-		if resolved := resolveVar(computed, value); resolved != nil {
+		if resolved := resolveVarSeen(computed, value, seen, cyclic); resolved != nil {
 			computedValue = append(computedValue, resolved...)
 		} else {
 			computedValue = append(computedValue, value)
